@@ -122,7 +122,7 @@ fn one_round(seed: u64, round: usize, per_writer: usize) -> Result<Round, String
                 let path = match w {
                     0 | 1 => 0,
                     2 => 1,
-                    _ => r.below(4),
+                    _ => r.below(7),
                 };
                 let res: Result<(), String> = match path {
                     0 => store
@@ -134,7 +134,10 @@ fn one_round(seed: u64, round: usize, per_writer: usize) -> Result<Round, String
                         .map(|_| ()),
                     1 => store.append_message(&cid, "user".into(), "cli".into(), format!("message {w}/{i} \u{e9}\u{1F600}")).map(|_| ()),
                     2 => store.append_run_spawned(&cid, &mid, &format!("run-{w}-{i}"), "user".into(), "cli".into()).map(|_| ()),
-                    _ => store.append_run_ended(&cid, &mid, &format!("run-{w}-{i}"), "completed".into(), "user".into(), "cli".into()).map(|_| ()),
+                    3 => store.append_run_ended(&cid, &mid, &format!("run-{w}-{i}"), "completed".into(), "user".into(), "cli".into()).map(|_| ()),
+                    4 => ripd::verif::append_context_selection_decided(&store, &cid, format!("run-{w}-{i}"), mid.clone(), "recent_messages_v1".into(), vec![], "user".into(), "cli".into()).map(|_| ()),
+                    5 => ripd::verif::append_context_compiled(&store, &cid, format!("run-{w}-{i}"), format!("{:064x}", i), "recent_messages_v1".into(), i as u64, Some(mid.clone()), "user".into(), "cli".into()).map(|_| ()),
+                    _ => ripd::verif::append_provider_cursor_updated(&store, &cid, "openresponses".into(), None, None, Some(json!({"previous_response_id": format!("resp_{i}")})), "set".into(), Some(format!("run-{w}-{i}")), "user".into(), "cli".into()).map(|_| ()),
                 };
                 if res.is_err() {
                     errors += 1;
@@ -226,7 +229,7 @@ pub fn concurrent_writers(seed: u64, rounds: usize, per_writer: usize) -> ExtraO
         out.evaluations += 1;
         let res = catch_unwind(AssertUnwindSafe(|| one_round(seed, round, per_writer)));
         let replay = json!({"kind": "concurrent_writers", "seed": seed, "round": round, "writers": WRITERS, "appends_per_writer": per_writer,
-            "how": "fresh ContinuityStore; ensure_default; append_message; subscribe; 4 OS threads append to that thread at the same time (2x append_tool_side_effects, 1x append_message, 1x mix of message / run_spawned / run_ended / side effects); then compare live order, events.jsonl, sidecar, replay_events"});
+            "how": "fresh ContinuityStore; ensure_default; append_message; subscribe; 4 OS threads append to that thread at the same time (2x append_tool_side_effects, 1x append_message, 1x mix of message / run_spawned / run_ended / side effects / selection_decided / context_compiled / provider_cursor_updated); then compare live order, events.jsonl, sidecar, replay_events"});
         match res {
             Ok(Ok(r)) => {
                 out.oracle_checks += r.checks;
